@@ -1,1 +1,1149 @@
-(* C09 - to be filled *)
+(* C09: lemmas.  The first half is infrastructure about LdSem's execution inside an output section
+   and at the top level, and about the symbol names, reused by C05, C02 and C01. *)
+From Slinky Require Import Model.Types Model.Generated Model.Runtime Model.Style Model.Script Model.Writer Model.LdSem.
+From Slinky Require Import Proofs.LdLemmas Proofs.C18 Spec.C09.
+From Coq Require Import Lia ZArith Sorted.
+Local Open Scope Z_scope.
+
+(* ====================================================================== *)
+(* strings and symbol names                                                *)
+(* ====================================================================== *)
+
+Lemma str_length_app a b : String.length (a ++ b)%string = (String.length a + String.length b)%nat.
+Proof. induction a as [|c a IH]; simpl; [reflexivity | rewrite IH; reflexivity]. Qed.
+
+Lemma str_app_nil_r a : (a ++ "")%string = a.
+Proof. induction a as [|c a IH]; simpl; [reflexivity | rewrite IH; reflexivity]. Qed.
+
+Lemma str_app_inv_head a b c : (a ++ b)%string = (a ++ c)%string -> b = c.
+Proof. induction a as [|x a IH]; simpl; intro H; [assumption | injection H as H; auto]. Qed.
+
+Lemma str_app_assoc a b c : ((a ++ b) ++ c)%string = (a ++ b ++ c)%string.
+Proof. induction a as [|x a IH]; simpl; [reflexivity | rewrite IH; reflexivity]. Qed.
+
+Lemma fmt2 p0 p1 a : fmt [p0; p1] [a] = (p0 ++ a ++ p1)%string.
+Proof. simpl. rewrite str_app_nil_r. reflexivity. Qed.
+
+Lemma fmt3 p0 p1 p2 a b : fmt [p0; p1; p2] [a; b] = (p0 ++ a ++ p1 ++ b ++ p2)%string.
+Proof. simpl. rewrite str_app_nil_r. reflexivity. Qed.
+
+Ltac unfold_names :=
+  unfold segment_rom_start, segment_rom_end, segment_rom_size, segment_vram_start, segment_vram_end,
+    segment_vram_size, segment_section_start, segment_section_end, segment_section_size, linker_offset,
+    vram_class_start, vram_class_end, vram_class_size,
+    tpl_segment_rom_start, tpl_segment_rom_end, tpl_segment_rom_size, tpl_segment_vram_start,
+    tpl_segment_vram_end, tpl_segment_vram_size, tpl_segment_section_start, tpl_segment_section_end,
+    tpl_segment_section_size, tpl_linker_offset, tpl_vram_class_start, tpl_vram_class_end,
+    tpl_vram_class_size in *.
+
+(* two names built from the same arguments with different templates are different *)
+Ltac name_neq :=
+  let H := fresh "H" in
+  unfold_names; intro H;
+  match goal with sty : style |- _ => destruct sty end;
+  cbn [pick fst snd] in H; rewrite ?fmt2, ?fmt3 in H;
+  repeat first [ apply str_app_inv_head in H | progress (simpl in H; injection H as H) ];
+  discriminate.
+
+Lemma sec_start_neq_end sty n s : segment_section_start sty n s <> segment_section_end sty n s.
+Proof. name_neq. Qed.
+Lemma sec_start_neq_size sty n s : segment_section_start sty n s <> segment_section_size sty n s.
+Proof. name_neq. Qed.
+Lemma sec_end_neq_size sty n s : segment_section_end sty n s <> segment_section_size sty n s.
+Proof. name_neq. Qed.
+
+Lemma vram_start_neq_end sty n : segment_vram_start sty n <> segment_vram_end sty n.
+Proof. name_neq. Qed.
+Lemma vram_start_neq_size sty n : segment_vram_start sty n <> segment_vram_size sty n.
+Proof. name_neq. Qed.
+Lemma vram_end_neq_size sty n : segment_vram_end sty n <> segment_vram_size sty n.
+Proof. name_neq. Qed.
+Lemma rom_start_neq_end sty n : segment_rom_start sty n <> segment_rom_end sty n.
+Proof. name_neq. Qed.
+Lemma rom_start_neq_size sty n : segment_rom_start sty n <> segment_rom_size sty n.
+Proof. name_neq. Qed.
+Lemma rom_end_neq_size sty n : segment_rom_end sty n <> segment_rom_size sty n.
+Proof. name_neq. Qed.
+Lemma vram_end_neq_rom_end sty n : segment_vram_end sty n <> segment_rom_end sty n.
+Proof. name_neq. Qed.
+Lemma vram_end_neq_rom_size sty n : segment_vram_end sty n <> segment_rom_size sty n.
+Proof. name_neq. Qed.
+Lemma vram_end_neq_rom_start sty n : segment_vram_end sty n <> segment_rom_start sty n.
+Proof. name_neq. Qed.
+Lemma vram_size_neq_rom_end sty n : segment_vram_size sty n <> segment_rom_end sty n.
+Proof. name_neq. Qed.
+Lemma vram_size_neq_rom_size sty n : segment_vram_size sty n <> segment_rom_size sty n.
+Proof. name_neq. Qed.
+Lemma vram_size_neq_rom_start sty n : segment_vram_size sty n <> segment_rom_start sty n.
+Proof. name_neq. Qed.
+Lemma vram_start_neq_rom_start sty n : segment_vram_start sty n <> segment_rom_start sty n.
+Proof. name_neq. Qed.
+Lemma vram_start_neq_rom_end sty n : segment_vram_start sty n <> segment_rom_end sty n.
+Proof. name_neq. Qed.
+Lemma vram_start_neq_rom_size sty n : segment_vram_start sty n <> segment_rom_size sty n.
+Proof. name_neq. Qed.
+
+(* every segment-level name is longer than "." and "__romPos" *)
+Ltac name_len :=
+  unfold_names;
+  match goal with sty : style |- _ => destruct sty end;
+  cbn [pick fst snd]; rewrite ?fmt2, ?fmt3, ?str_length_app; simpl String.length; lia.
+
+Lemma len_rom_start sty n : (9 <= String.length (segment_rom_start sty n))%nat. Proof. name_len. Qed.
+Lemma len_rom_end sty n : (8 <= String.length (segment_rom_end sty n))%nat. Proof. name_len. Qed.
+Lemma len_rom_size sty n : (9 <= String.length (segment_rom_size sty n))%nat. Proof. name_len. Qed.
+Lemma len_vram_start sty n : (5 <= String.length (segment_vram_start sty n))%nat. Proof. name_len. Qed.
+Lemma len_vram_end sty n : (9 <= String.length (segment_vram_end sty n))%nat. Proof. name_len. Qed.
+Lemma len_vram_size sty n : (10 <= String.length (segment_vram_size sty n))%nat. Proof. name_len. Qed.
+Lemma len_sec_start sty n s : (6 <= String.length (segment_section_start sty n s))%nat. Proof. name_len. Qed.
+Lemma len_sec_end sty n s : (4 <= String.length (segment_section_end sty n s))%nat. Proof. name_len. Qed.
+Lemma len_sec_size sty n s : (5 <= String.length (segment_section_size sty n s))%nat. Proof. name_len. Qed.
+Lemma len_offset sty n : (7 <= String.length (linker_offset sty n))%nat. Proof. name_len. Qed.
+
+Lemma long_not_dot s : (2 <= String.length s)%nat -> String.eqb s "." = false.
+Proof. intro H. apply String.eqb_neq. intro E. subst. simpl in H. lia. Qed.
+
+Lemma long_not_rompos s : (9 <= String.length s)%nat -> s <> "__romPos".
+Proof. intros H E. subst. simpl in H. lia. Qed.
+
+Lemma eqb_dot_rom_start sty n : String.eqb (segment_rom_start sty n) "." = false.
+Proof. apply long_not_dot. pose proof (len_rom_start sty n). lia. Qed.
+Lemma eqb_dot_rom_end sty n : String.eqb (segment_rom_end sty n) "." = false.
+Proof. apply long_not_dot. pose proof (len_rom_end sty n). lia. Qed.
+Lemma eqb_dot_rom_size sty n : String.eqb (segment_rom_size sty n) "." = false.
+Proof. apply long_not_dot. pose proof (len_rom_size sty n). lia. Qed.
+Lemma eqb_dot_vram_start sty n : String.eqb (segment_vram_start sty n) "." = false.
+Proof. apply long_not_dot. pose proof (len_vram_start sty n). lia. Qed.
+Lemma eqb_dot_vram_end sty n : String.eqb (segment_vram_end sty n) "." = false.
+Proof. apply long_not_dot. pose proof (len_vram_end sty n). lia. Qed.
+Lemma eqb_dot_vram_size sty n : String.eqb (segment_vram_size sty n) "." = false.
+Proof. apply long_not_dot. pose proof (len_vram_size sty n). lia. Qed.
+Lemma eqb_dot_sec_start sty n s : String.eqb (segment_section_start sty n s) "." = false.
+Proof. apply long_not_dot. pose proof (len_sec_start sty n s). lia. Qed.
+Lemma eqb_dot_sec_end sty n s : String.eqb (segment_section_end sty n s) "." = false.
+Proof. apply long_not_dot. pose proof (len_sec_end sty n s). lia. Qed.
+Lemma eqb_dot_sec_size sty n s : String.eqb (segment_section_size sty n s) "." = false.
+Proof. apply long_not_dot. pose proof (len_sec_size sty n s). lia. Qed.
+Lemma eqb_dot_offset sty n : String.eqb (linker_offset sty n) "." = false.
+Proof. apply long_not_dot. pose proof (len_offset sty n). lia. Qed.
+
+Lemma vram_end_neq_rompos sty n : segment_vram_end sty n <> "__romPos".
+Proof. apply long_not_rompos. apply len_vram_end. Qed.
+Lemma vram_size_neq_rompos sty n : segment_vram_size sty n <> "__romPos".
+Proof. apply long_not_rompos. pose proof (len_vram_size sty n). lia. Qed.
+Lemma rom_start_neq_rompos sty n : segment_rom_start sty n <> "__romPos".
+Proof. apply long_not_rompos. apply len_rom_start. Qed.
+
+Lemma vram_start_neq_rompos sty n : segment_vram_start sty n <> "__romPos".
+Proof.
+  destruct sty.
+  - unfold segment_vram_start, tpl_segment_vram_start. cbn [pick fst snd]. rewrite fmt2. simpl. intro H.
+    assert (L : String.length n = 3%nat).
+    { apply (f_equal String.length) in H. rewrite str_length_app in H. simpl in H. lia. }
+    destruct n as [|c1 [|c2 [|c3 [|c4 n]]]]; simpl in L; try lia. simpl in H. discriminate.
+  - apply long_not_rompos. unfold segment_vram_start, tpl_segment_vram_start. cbn [pick fst snd].
+    rewrite fmt2, !str_length_app. simpl. lia.
+Qed.
+
+(* ====================================================================== *)
+(* small list facts                                                        *)
+(* ====================================================================== *)
+
+Lemma Forall_filter {A} (P : A -> Prop) f l : Forall P l -> Forall P (filter f l).
+Proof.
+  induction 1 as [|x r Hx Hr IH]; simpl; [constructor|]. destruct (f x); [constructor|]; assumption.
+Qed.
+
+Lemma sorted_app l1 l2 m :
+  StronglySorted Z.le l1 -> StronglySorted Z.le l2 ->
+  Forall (fun x => x <= m) l1 -> Forall (fun x => m <= x) l2 ->
+  StronglySorted Z.le (l1 ++ l2).
+Proof.
+  intros S1 S2 H1 H2. induction S1 as [|x r Sr IH Hx]; simpl; [assumption|].
+  inversion H1 as [|? ? Hxm Hr]; subst. constructor; [apply IH; assumption|].
+  apply Forall_app; split; [assumption|]. eapply Forall_impl; [|exact H2]. simpl. intros; lia.
+Qed.
+
+(* ====================================================================== *)
+(* assignments                                                             *)
+(* ====================================================================== *)
+
+Lemma assign_dot ext final p sym r t st : l_dot (assign ext final p sym r t st) = l_dot st.
+Proof.
+  unfold assign. destruct r as [v|e].
+  - destruct (p && is_some (lookup sym ext))%bool; reflexivity.
+  - destruct e; try (destruct (final && negb p)%bool; reflexivity); reflexivity.
+Qed.
+
+Lemma assign_placed ext final p sym r t st : l_placed (assign ext final p sym r t st) = l_placed st.
+Proof.
+  unfold assign. destruct r as [v|e].
+  - destruct (p && is_some (lookup sym ext))%bool; reflexivity.
+  - destruct e; try (destruct (final && negb p)%bool; reflexivity); reflexivity.
+Qed.
+
+Lemma assign_remaining ext final p sym r t st : l_remaining (assign ext final p sym r t st) = l_remaining st.
+Proof.
+  unfold assign. destruct r as [v|e].
+  - destruct (p && is_some (lookup sym ext))%bool; reflexivity.
+  - destruct e; try (destruct (final && negb p)%bool; reflexivity); reflexivity.
+Qed.
+
+Lemma assign_secs ext final p sym r t st : l_secs (assign ext final p sym r t st) = l_secs st.
+Proof.
+  unfold assign. destruct r as [v|e].
+  - destruct (p && is_some (lookup sym ext))%bool; reflexivity.
+  - destruct e; try (destruct (final && negb p)%bool; reflexivity); reflexivity.
+Qed.
+
+Lemma assign_discarded ext final p sym r t st : l_discarded (assign ext final p sym r t st) = l_discarded st.
+Proof.
+  unfold assign. destruct r as [v|e].
+  - destruct (p && is_some (lookup sym ext))%bool; reflexivity.
+  - destruct e; try (destruct (final && negb p)%bool; reflexivity); reflexivity.
+Qed.
+
+(* a plain (not PROVIDE) assignment of a computable value always defines the symbol *)
+Lemma assign_ok ext final sym v t st : assign ext final false sym (Ok v) t st = set_sym sym v false st.
+Proof. reflexivity. Qed.
+
+Lemma lookup_assign_other ext final p sym r t st x :
+  sym <> x -> lookup x (l_syms (assign ext final p sym r t st)) = lookup x (l_syms st).
+Proof.
+  intro H. unfold assign. destruct r as [v|e].
+  - destruct (p && is_some (lookup sym ext))%bool; [reflexivity|]. apply lookup_set_sym_other. assumption.
+  - destruct e; try (destruct (final && negb p)%bool; reflexivity); reflexivity.
+Qed.
+
+Lemma sym_lookup_set_sym_other s x v p st env ext :
+  s <> x -> sym_lookup x (set_sym s v p st) env ext = sym_lookup x st env ext.
+Proof. intro H. unfold sym_lookup. rewrite lookup_set_sym_other by assumption. reflexivity. Qed.
+
+Lemma sym_lookup_assign_other ext final p sym r t st x env :
+  sym <> x -> sym_lookup x (assign ext final p sym r t st) env ext = sym_lookup x st env ext.
+Proof. intro H. unfold sym_lookup. rewrite lookup_assign_other by assumption. reflexivity. Qed.
+
+Lemma sym_lookup_set_sym_same s v p st env ext : sym_lookup s (set_sym s v p st) env ext = Some v.
+Proof. apply sym_lookup_defined. apply lookup_set_sym_same. Qed.
+
+(* ====================================================================== *)
+(* optional alignments                                                     *)
+(* ====================================================================== *)
+
+Lemma opt_aligned_le a x : x <= opt_aligned a x.
+Proof. destruct a; simpl; [apply align_up_le | lia]. Qed.
+
+Lemma align_up_0 x : align_up x 0 = x.
+Proof. reflexivity. Qed.
+
+(* aligning to a then to b: a multiple of b, and of a as well when the two are compatible *)
+Lemma opt_aligned_second a b x : forall n, b = Some n -> (0 < n)%N -> (Z.of_N n | opt_aligned b (opt_aligned a x)).
+Proof. intros n E Hn. subst. simpl. apply align_up_divide. lia. Qed.
+
+Lemma opt_aligned_first a b x : forall n,
+  a = Some n -> (0 < n)%N ->
+  (forall m, b = Some m -> compatible (Z.of_N n) (Z.of_N m)) ->
+  (Z.of_N n | opt_aligned b (opt_aligned a x)).
+Proof.
+  intros n E Hn Hc. subst. cbn [opt_aligned]. destruct b as [m|]; cbn [opt_aligned]; [|apply align_up_divide; lia].
+  destruct (N.eq_dec m 0) as [E0|E0].
+  - subst. change (Z.of_N 0) with 0. rewrite align_up_0. apply align_up_divide. lia.
+  - apply (align_up_twice_divides x (Z.of_N n) (Z.of_N m)); try lia. apply Hc. reflexivity.
+Qed.
+
+(* ====================================================================== *)
+(* execution inside an output section                                      *)
+(* ====================================================================== *)
+
+Section InSection.
+  Variables env ext : list (string * Z).
+  Variable senv : list osec.
+  Variable final : bool.
+  Variable vma : Z.
+  Variable sub : option Z.
+  Variable outsec : string.
+
+  Let X := exec_sec_stmt env senv ext final vma sub outsec.
+
+  Lemma fold_X_app a b ss : fold_left X (a ++ b) ss = fold_left X b (fold_left X a ss).
+  Proof. apply fold_left_app. Qed.
+
+  Lemma exec_opt_align a ss :
+    fold_left X (opt_align a) ss = SState (opt_aligned a (s_off ss)) (s_contents ss) (s_st ss).
+  Proof. destruct ss, a; reflexivity. Qed.
+
+  Lemma exec_linker_symbol_dot sym ss :
+    X ss (linker_symbol sym EDot) =
+    SState (s_off ss) (s_contents ss) (set_sym sym (vma + s_off ss) false (s_st ss)).
+  Proof. reflexivity. Qed.
+
+  Lemma exec_gp rt seg section ss :
+    exists st', fold_left X (gp_stmt rt seg section) ss = SState (s_off ss) (s_contents ss) st' /\
+                l_placed st' = l_placed (s_st ss) /\ l_remaining st' = l_remaining (s_st ss) /\
+                forall x, x <> "_gp" -> lookup x (l_syms st') = lookup x (l_syms (s_st ss)).
+  Proof.
+    unfold gp_stmt. destruct (sg_gp_info seg) as [g|].
+    - destruct (should_emit rt (gp_conds g) && String.eqb (gp_section g) section)%bool.
+      + cbn [fold_left]. unfold X. cbn [exec_sec_stmt s_off s_contents s_st]. eexists. split; [reflexivity|].
+        rewrite assign_placed, assign_remaining.
+        repeat split. intros x Hx. apply lookup_assign_other. congruence.
+      + destruct ss. simpl. eexists. split; [reflexivity|]. auto.
+    - destruct ss. simpl. eexists. split; [reflexivity|]. auto.
+  Qed.
+
+  (* ---------- the frame: what a statement inside a section never touches ---------- *)
+
+  Lemma X_secs ss s : l_secs (s_st (X ss s)) = l_secs (s_st ss).
+  Proof.
+    destruct s; try reflexivity; simpl.
+    - apply assign_secs.
+    - destruct (String.eqb sym "."); reflexivity.
+    - destruct (place vma sub outsec _ _ _ _) as [[o p] c]. reflexivity.
+  Qed.
+
+  Lemma X_dot ss s : l_dot (s_st (X ss s)) = l_dot (s_st ss).
+  Proof.
+    destruct s; try reflexivity; simpl.
+    - apply assign_dot.
+    - destruct (String.eqb sym "."); reflexivity.
+    - destruct (place vma sub outsec _ _ _ _) as [[o p] c]. reflexivity.
+  Qed.
+
+  Lemma X_discarded ss s : l_discarded (s_st (X ss s)) = l_discarded (s_st ss).
+  Proof.
+    destruct s; try reflexivity; simpl.
+    - apply assign_discarded.
+    - destruct (String.eqb sym "."); reflexivity.
+    - destruct (place vma sub outsec _ _ _ _) as [[o p] c]. reflexivity.
+  Qed.
+
+  Lemma fold_X_secs body : forall ss, l_secs (s_st (fold_left X body ss)) = l_secs (s_st ss).
+  Proof. induction body as [|s r IH]; intro ss; simpl; [reflexivity|]. rewrite IH. apply X_secs. Qed.
+
+  Lemma fold_X_dot body : forall ss, l_dot (s_st (fold_left X body ss)) = l_dot (s_st ss).
+  Proof. induction body as [|s r IH]; intro ss; simpl; [reflexivity|]. rewrite IH. apply X_dot. Qed.
+
+  Lemma fold_X_discarded body : forall ss, l_discarded (s_st (fold_left X body ss)) = l_discarded (s_st ss).
+  Proof. induction body as [|s r IH]; intro ss; simpl; [reflexivity|]. rewrite IH. apply X_discarded. Qed.
+
+  (* ---------- placing ---------- *)
+
+  (* the placements made by one input statement: in link order, at non-decreasing addresses between
+     the offset before and the offset after, one per selected section *)
+  Lemma place_sorted l : forall off acc c off' acc' c',
+    nonneg_sizes l ->
+    place vma sub outsec l off acc c = (off', acc', c') ->
+    off <= off' /\
+    exists new, acc' = acc ++ new /\ map pl_marker new = map u_marker l /\
+      Forall (fun p => vma + off <= pl_addr p /\ pl_addr p <= vma + off' /\ pl_outsec p = outsec) new /\
+      StronglySorted Z.le (map pl_addr new).
+  Proof.
+    induction l as [|u r IH]; intros off acc c off' acc' c' Hs H; simpl in H.
+    - inversion H; subst. split; [lia|]. exists []. rewrite app_nil_r. repeat split; constructor.
+    - inversion Hs as [|? ? Hu Hr]; subst.
+      set (a := match sub with Some s => s | None => u_align u end) in *.
+      set (addr := align_up (vma + off) a) in *.
+      assert (Ha : vma + off <= addr) by apply align_up_le.
+      specialize (IH _ _ _ _ _ _ Hr H). destruct IH as [Hle [new [Hacc [Hmk [Hall Hsorted]]]]].
+      split; [lia|].
+      exists (Placement (u_marker u) addr outsec :: new). rewrite Hacc, <- app_assoc. simpl.
+      split; [reflexivity|]. split; [rewrite Hmk; reflexivity|]. split.
+      + constructor.
+        * simpl. repeat split; lia.
+        * eapply Forall_impl; [|exact Hall]. intros p [H1 [H2 H3]]. simpl in *. repeat split; try lia; assumption.
+      + constructor; [assumption|]. apply Forall_forall. intros x Hx. apply in_map_iff in Hx.
+        destruct Hx as [p [Ep Hp]]. subst x. rewrite Forall_forall in Hall. specialize (Hall p Hp). lia.
+  Qed.
+
+  (* what one statement does to the offset, the universe and the placements *)
+  Definition sec_post (ss ss' : sstate) : Prop :=
+    s_off ss <= s_off ss' /\
+    nonneg_sizes (l_remaining (s_st ss')) /\
+    exists new, l_placed (s_st ss') = l_placed (s_st ss) ++ new /\
+      Forall (fun p => vma + s_off ss <= pl_addr p /\ pl_addr p <= vma + s_off ss' /\ pl_outsec p = outsec) new /\
+      StronglySorted Z.le (map pl_addr new).
+
+  Lemma sec_post_refl_gen ss ss' :
+    s_off ss <= s_off ss' -> l_placed (s_st ss') = l_placed (s_st ss) ->
+    nonneg_sizes (l_remaining (s_st ss')) -> sec_post ss ss'.
+  Proof.
+    intros H1 H2 H3. split; [assumption|]. split; [assumption|]. exists []. rewrite app_nil_r.
+    repeat split; try assumption; constructor.
+  Qed.
+
+  Lemma sec_step ss s : nonneg_sizes (l_remaining (s_st ss)) -> sec_post ss (X ss s).
+  Proof.
+    intro Hn.
+    destruct s as [t| |p h rc sym e|sym n|sym other|sec|n|n|kp path member sect wild|nm addr at_ nl sb body
+                   |sect|pats wild|body|e|e|c m];
+      try (apply sec_post_refl_gen; simpl; [lia | reflexivity | assumption]).
+    - (* SAssign *)
+      apply sec_post_refl_gen; simpl; [lia | apply assign_placed | rewrite assign_remaining; assumption].
+    - (* SAlign *)
+      unfold X. simpl. destruct (String.eqb sym ".").
+      + apply sec_post_refl_gen; simpl; [apply align_up_le | reflexivity | assumption].
+      + apply sec_post_refl_gen; [lia | reflexivity | assumption].
+    - (* SInput *)
+      unfold X. simpl.
+      destruct (place vma sub outsec (filter (sel false path member sect wild) (l_remaining (s_st ss)))
+                      (s_off ss) [] (s_contents ss)) as [[off' pls] c] eqn:E.
+      apply place_sorted in E; [|apply Forall_filter; assumption].
+      destruct E as [Hle [new [Hacc [_ [Hall Hsorted]]]]]. simpl in Hacc. subst pls.
+      split; [exact Hle|]. split; [simpl; apply Forall_filter; assumption|].
+      exists new. simpl. repeat split; assumption.
+  Qed.
+
+  Lemma sec_post_trans a b c : sec_post a b -> sec_post b c -> sec_post a c.
+  Proof.
+    intros [L1 [N1 [new1 [P1 [R1 S1]]]]] [L2 [N2 [new2 [P2 [R2 S2]]]]].
+    split; [lia|]. split; [assumption|]. exists (new1 ++ new2). rewrite P2, P1, app_assoc.
+    split; [reflexivity|]. split.
+    - apply Forall_app; split; (eapply Forall_impl; [|eassumption]); intros p [H1 [H2 H3]]; repeat split;
+        try lia; assumption.
+    - rewrite map_app. apply (sorted_app _ _ (vma + s_off b)); try assumption.
+      + apply Forall_forall. intros x Hx. apply in_map_iff in Hx. destruct Hx as [p [Ep Hp]]. subst.
+        rewrite Forall_forall in R1. specialize (R1 p Hp). lia.
+      + apply Forall_forall. intros x Hx. apply in_map_iff in Hx. destruct Hx as [p [Ep Hp]]. subst.
+        rewrite Forall_forall in R2. specialize (R2 p Hp). lia.
+  Qed.
+
+  Lemma sec_fold body : forall ss,
+    nonneg_sizes (l_remaining (s_st ss)) -> sec_post ss (fold_left X body ss).
+  Proof.
+    induction body as [|s r IH]; intros ss Hn; simpl.
+    - apply sec_post_refl_gen; [lia | reflexivity | assumption].
+    - pose proof (sec_step ss s Hn) as H1. eapply sec_post_trans; [exact H1|].
+      apply IH. destruct H1 as [_ [H1 _]]. exact H1.
+  Qed.
+End InSection.
+
+(* ====================================================================== *)
+(* end / size pairs                                                        *)
+(* ====================================================================== *)
+
+(* the two assignments of sym_end_size, on the layout state: `end_ = value; size = ABSOLUTE(end_ - start)` *)
+Lemma sym_end_size_lstate env senv ext final start end_ size value st here here' s v :
+  eval_expr env senv ext st here value = Ok v ->
+  sym_lookup start st env ext = Some s ->
+  assign ext final false size
+         (eval_expr env senv ext
+                    (assign ext final false end_ (eval_expr env senv ext st here value) (render_expr value) st)
+                    here' (EAbsSub end_ start))
+         (render_expr (EAbsSub end_ start))
+         (assign ext final false end_ (eval_expr env senv ext st here value) (render_expr value) st) =
+  set_sym size (v - (if String.eqb start end_ then v else s)) false (set_sym end_ v false st).
+Proof.
+  intros Hv Hs. rewrite Hv, assign_ok. cbn [eval_expr].
+  rewrite sym_lookup_set_sym_same.
+  destruct (String.eqb start end_) eqn:E.
+  - apply String.eqb_eq in E. subst. rewrite sym_lookup_set_sym_same. apply assign_ok.
+  - apply String.eqb_neq in E. rewrite sym_lookup_set_sym_other by congruence. rewrite Hs. apply assign_ok.
+Qed.
+
+Lemma lookup_two_same size end_ vs ve st : lookup size (l_syms (set_sym size vs false (set_sym end_ ve false st))) = Some vs.
+Proof. apply lookup_set_sym_same. Qed.
+
+Lemma lookup_two_end size end_ vs ve st :
+  size <> end_ -> lookup end_ (l_syms (set_sym size vs false (set_sym end_ ve false st))) = Some ve.
+Proof. intro H. rewrite lookup_set_sym_other by assumption. apply lookup_set_sym_same. Qed.
+
+Lemma lookup_two_other size end_ vs ve st x :
+  x <> end_ -> x <> size ->
+  lookup x (l_syms (set_sym size vs false (set_sym end_ ve false st))) = lookup x (l_syms st).
+Proof. intros H1 H2. rewrite !lookup_set_sym_other by congruence. reflexivity. Qed.
+
+(* ====================================================================== *)
+(* group symbols inside an output section                                  *)
+(* ====================================================================== *)
+
+Section GroupSyms.
+  Variables env ext : list (string * Z).
+  Variable senv : list osec.
+  Variable final : bool.
+  Variable vma : Z.
+  Variable sub : option Z.
+  Variable outsec : string.
+
+  Local Notation X := (exec_sec_stmt env senv ext final vma sub outsec).
+
+  (* C05: size = end - start, inside a section *)
+  Lemma sec_sym_end_size start end_ size value ss s v :
+    eval_expr env senv ext (s_st ss) (vma + s_off ss) value = Ok v ->
+    sym_lookup start (s_st ss) env ext = Some s ->
+    fold_left X (sym_end_size start end_ size value) ss =
+    SState (s_off ss) (s_contents ss)
+           (set_sym size (v - (if String.eqb start end_ then v else s)) false (set_sym end_ v false (s_st ss))).
+  Proof.
+    intros Hv Hs. unfold sym_end_size, linker_symbol. cbn [fold_left exec_sec_stmt s_off s_contents s_st].
+    f_equal. apply sym_end_size_lstate; assumption.
+  Qed.
+
+  Lemma group_start_exec rt sty cfg seg section ss :
+    section_syms cfg = true ->
+    exists st',
+      fold_left X (section_symbol_start rt sty cfg seg section) ss =
+      SState (opt_aligned (lookup section (sections_start_alignment seg))
+                          (opt_aligned (section_start_align seg) (s_off ss))) (s_contents ss) st' /\
+      lookup (segment_section_start sty (sg_name seg) section) (l_syms st') =
+      Some (vma + opt_aligned (lookup section (sections_start_alignment seg))
+                              (opt_aligned (section_start_align seg) (s_off ss))) /\
+      l_placed st' = l_placed (s_st ss) /\ l_remaining st' = l_remaining (s_st ss).
+  Proof.
+    intro Hc. unfold section_symbol_start. rewrite Hc. rewrite !fold_X_app, !exec_opt_align.
+    cbn [s_off s_contents s_st].
+    destruct (exec_gp env ext senv final vma sub outsec rt seg section
+                (SState (opt_aligned (lookup section (sections_start_alignment seg))
+                                     (opt_aligned (section_start_align seg) (s_off ss))) (s_contents ss) (s_st ss)))
+      as [st1 [E [Hp [Hr _]]]].
+    rewrite E. cbn [fold_left]. rewrite exec_linker_symbol_dot. cbn [s_off s_contents s_st] in *.
+    eexists. split; [reflexivity|]. split; [apply lookup_set_sym_same|]. simpl. auto.
+  Qed.
+
+  Lemma group_end_exec sty cfg seg section ss :
+    section_syms cfg = true ->
+    exists st',
+      fold_left X (section_symbol_end sty cfg seg section) ss =
+      SState (opt_aligned (lookup section (sections_end_alignment seg))
+                          (opt_aligned (section_end_align seg) (s_off ss))) (s_contents ss) st' /\
+      lookup (segment_section_end sty (sg_name seg) section) (l_syms st') =
+      Some (vma + opt_aligned (lookup section (sections_end_alignment seg))
+                              (opt_aligned (section_end_align seg) (s_off ss))) /\
+      (forall s, sym_lookup (segment_section_start sty (sg_name seg) section) (s_st ss) env ext = Some s ->
+                 lookup (segment_section_size sty (sg_name seg) section) (l_syms st') =
+                 Some (vma + opt_aligned (lookup section (sections_end_alignment seg))
+                                         (opt_aligned (section_end_align seg) (s_off ss)) - s)) /\
+      (forall x, x <> segment_section_end sty (sg_name seg) section ->
+                 x <> segment_section_size sty (sg_name seg) section ->
+                 lookup x (l_syms st') = lookup x (l_syms (s_st ss)) \/
+                 sym_lookup (segment_section_start sty (sg_name seg) section) (s_st ss) env ext = None) /\
+      l_placed st' = l_placed (s_st ss) /\ l_remaining st' = l_remaining (s_st ss).
+  Proof.
+    intro Hc. unfold section_symbol_end. rewrite Hc. rewrite !fold_X_app, !exec_opt_align.
+    cbn [s_off s_contents s_st].
+    set (off' := opt_aligned (lookup section (sections_end_alignment seg))
+                             (opt_aligned (section_end_align seg) (s_off ss))).
+    set (START := segment_section_start sty (sg_name seg) section).
+    set (END_ := segment_section_end sty (sg_name seg) section).
+    set (SIZE := segment_section_size sty (sg_name seg) section).
+    destruct (sym_lookup START (s_st ss) env ext) as [s|] eqn:Es.
+    - rewrite (sec_sym_end_size START END_ SIZE EDot (SState off' (s_contents ss) (s_st ss)) s (vma + off'));
+        [|reflexivity|exact Es].
+      cbn [s_off s_contents s_st]. eexists. split; [reflexivity|].
+      assert (Hse : String.eqb START END_ = false) by (apply String.eqb_neq; apply sec_start_neq_end).
+      rewrite Hse. split; [|split; [|split]].
+      + apply lookup_two_end. intro E. symmetry in E. revert E. apply sec_end_neq_size.
+      + intros s0 E0. inversion E0; subst. apply lookup_two_same.
+      + intros x H1 H2. left. apply lookup_two_other; assumption.
+      + simpl. auto.
+    - unfold sym_end_size, linker_symbol. cbn [fold_left exec_sec_stmt s_off s_contents s_st].
+      change (eval_expr env senv ext (s_st ss) (vma + off') EDot) with (@Ok Z (vma + off')).
+      rewrite assign_ok. eexists. split; [reflexivity|]. split; [|split; [|split]].
+      + rewrite lookup_assign_other; [apply lookup_set_sym_same|].
+        intro E. symmetry in E. revert E. apply sec_end_neq_size.
+      + intros s0 E0. discriminate.
+      + intros x H1 H2. right. reflexivity.
+      + rewrite assign_placed, assign_remaining. simpl. auto.
+  Qed.
+End GroupSyms.
+
+(* the conclusions about the offset reached, shared by start and end, relative and absolute *)
+Lemma opt_aligned_facts (A B : option N) x :
+  x <= opt_aligned B (opt_aligned A x) /\
+  (forall b, B = Some b -> (0 < b)%N -> (Z.of_N b | opt_aligned B (opt_aligned A x))) /\
+  (forall a, A = Some a -> (0 < a)%N ->
+             (forall b, B = Some b -> compatible (Z.of_N a) (Z.of_N b)) ->
+             (Z.of_N a | opt_aligned B (opt_aligned A x))).
+Proof.
+  split; [|split].
+  - pose proof (opt_aligned_le A x). pose proof (opt_aligned_le B (opt_aligned A x)). lia.
+  - intros b E Hb. apply opt_aligned_second; assumption.
+  - intros a E Ha Hc. apply opt_aligned_first; assumption.
+Qed.
+
+Lemma group_start_aligned env senv ext final vma sub outsec rt sty cfg seg section ss :
+  section_syms cfg = true ->
+  let ss' := fold_left (exec_sec_stmt env senv ext final vma sub outsec)
+                       (section_symbol_start rt sty cfg seg section) ss in
+  lookup (segment_section_start sty (sg_name seg) section) (l_syms (s_st ss')) = Some (vma + s_off ss') /\
+  s_off ss <= s_off ss' /\
+  (forall b, lookup section (sections_start_alignment seg) = Some b -> (0 < b)%N -> (Z.of_N b | s_off ss')) /\
+  (forall a, section_start_align seg = Some a -> (0 < a)%N ->
+             (forall b, lookup section (sections_start_alignment seg) = Some b ->
+                        compatible (Z.of_N a) (Z.of_N b)) ->
+             (Z.of_N a | s_off ss')).
+Proof.
+  intros Hc ss'.
+  destruct (group_start_exec env ext senv final vma sub outsec rt sty cfg seg section ss Hc)
+    as [st' [E [Hl _]]].
+  subst ss'. rewrite E. cbn [s_off s_st]. split; [exact Hl|]. apply opt_aligned_facts.
+Qed.
+
+Lemma group_end_aligned env senv ext final vma sub outsec sty cfg seg section ss :
+  section_syms cfg = true ->
+  let ss' := fold_left (exec_sec_stmt env senv ext final vma sub outsec)
+                       (section_symbol_end sty cfg seg section) ss in
+  lookup (segment_section_end sty (sg_name seg) section) (l_syms (s_st ss')) = Some (vma + s_off ss') /\
+  s_off ss <= s_off ss' /\
+  (forall b, lookup section (sections_end_alignment seg) = Some b -> (0 < b)%N -> (Z.of_N b | s_off ss')) /\
+  (forall a, section_end_align seg = Some a -> (0 < a)%N ->
+             (forall b, lookup section (sections_end_alignment seg) = Some b ->
+                        compatible (Z.of_N a) (Z.of_N b)) ->
+             (Z.of_N a | s_off ss')) /\
+  (forall s, sym_lookup (segment_section_start sty (sg_name seg) section) (s_st ss) env ext = Some s ->
+             lookup (segment_section_size sty (sg_name seg) section) (l_syms (s_st ss')) =
+             Some (vma + s_off ss' - s)).
+Proof.
+  intros Hc ss'.
+  destruct (group_end_exec env ext senv final vma sub outsec sty cfg seg section ss Hc)
+    as [st' [E [Hl [Hsz _]]]].
+  subst ss'. rewrite E. cbn [s_off s_st]. split; [exact Hl|].
+  pose proof (opt_aligned_facts (section_end_align seg) (lookup section (sections_end_alignment seg)) (s_off ss))
+    as [F1 [F2 F3]].
+  repeat split; assumption.
+Qed.
+
+(* ====================================================================== *)
+(* the same statements at the top level (single-segment mode, segment symbols) *)
+(* ====================================================================== *)
+
+Section TopLevelExec.
+  Variables env ext : list (string * Z).
+  Variable senv : list osec.
+  Variable final : bool.
+
+  Local Notation T := (exec_top_stmt env senv ext final).
+
+  Lemma fold_T_app a b st : fold_left T (a ++ b) st = fold_left T b (fold_left T a st).
+  Proof. apply fold_left_app. Qed.
+
+  Lemma top_opt_align a st : fold_left T (opt_align a) st = set_dot (opt_aligned a (l_dot st)) st.
+  Proof. destruct st, a; reflexivity. Qed.
+
+  Lemma top_linker_symbol sym e st :
+    String.eqb sym "." = false ->
+    T st (linker_symbol sym e) = assign ext final false sym (eval_expr env senv ext st (l_dot st) e) (render_expr e) st.
+  Proof. intro H. unfold linker_symbol. cbn [exec_top_stmt]. rewrite H. reflexivity. Qed.
+
+  Lemma top_gp rt seg section st :
+    exists st', fold_left T (gp_stmt rt seg section) st = st' /\ l_dot st' = l_dot st /\
+                l_placed st' = l_placed st /\ l_remaining st' = l_remaining st /\
+                forall x, x <> "_gp" -> lookup x (l_syms st') = lookup x (l_syms st).
+  Proof.
+    unfold gp_stmt. destruct (sg_gp_info seg) as [g|].
+    - destruct (should_emit rt (gp_conds g) && String.eqb (gp_section g) section)%bool.
+      + cbn [fold_left exec_top_stmt]. change (String.eqb "_gp" ".") with false. cbv iota.
+        eexists. split; [reflexivity|]. rewrite assign_dot, assign_placed, assign_remaining.
+        repeat split. intros x Hx. apply lookup_assign_other. congruence.
+      + eexists. split; [reflexivity|]. auto.
+    - eexists. split; [reflexivity|]. auto.
+  Qed.
+
+  (* C05: size = end - start, at the top level *)
+  Lemma top_sym_end_size start end_ size value st s v :
+    String.eqb end_ "." = false -> String.eqb size "." = false ->
+    eval_expr env senv ext st (l_dot st) value = Ok v ->
+    sym_lookup start st env ext = Some s ->
+    fold_left T (sym_end_size start end_ size value) st =
+    set_sym size (v - (if String.eqb start end_ then v else s)) false (set_sym end_ v false st).
+  Proof.
+    intros He Hz Hv Hs. unfold sym_end_size. cbn [fold_left].
+    rewrite (top_linker_symbol end_ value st He).
+    rewrite top_linker_symbol by exact Hz.
+    apply sym_end_size_lstate; assumption.
+  Qed.
+
+  Lemma top_group_start rt sty cfg seg section st :
+    section_syms cfg = true ->
+    exists st',
+      fold_left T (section_symbol_start rt sty cfg seg section) st = st' /\
+      l_dot st' = opt_aligned (lookup section (sections_start_alignment seg))
+                              (opt_aligned (section_start_align seg) (l_dot st)) /\
+      lookup (segment_section_start sty (sg_name seg) section) (l_syms st') = Some (l_dot st') /\
+      l_placed st' = l_placed st /\ l_remaining st' = l_remaining st.
+  Proof.
+    intro Hc. unfold section_symbol_start. rewrite Hc. rewrite !fold_T_app, !top_opt_align.
+    destruct (top_gp rt seg section
+                (set_dot (opt_aligned (lookup section (sections_start_alignment seg))
+                                      (l_dot (set_dot (opt_aligned (section_start_align seg) (l_dot st)) st)))
+                         (set_dot (opt_aligned (section_start_align seg) (l_dot st)) st)))
+      as [st1 [E [Hd [Hp [Hr _]]]]].
+    rewrite E. cbn [fold_left]. rewrite top_linker_symbol by apply eqb_dot_sec_start.
+    cbn [eval_expr]. rewrite assign_ok. eexists. split; [reflexivity|].
+    rewrite set_sym_dot, lookup_set_sym_same, Hd. simpl. auto.
+  Qed.
+
+  Lemma top_group_end sty cfg seg section st s :
+    section_syms cfg = true ->
+    sym_lookup (segment_section_start sty (sg_name seg) section) st env ext = Some s ->
+    exists st',
+      fold_left T (section_symbol_end sty cfg seg section) st = st' /\
+      l_dot st' = opt_aligned (lookup section (sections_end_alignment seg))
+                              (opt_aligned (section_end_align seg) (l_dot st)) /\
+      lookup (segment_section_end sty (sg_name seg) section) (l_syms st') = Some (l_dot st') /\
+      lookup (segment_section_size sty (sg_name seg) section) (l_syms st') = Some (l_dot st' - s) /\
+      l_placed st' = l_placed st /\ l_remaining st' = l_remaining st.
+  Proof.
+    intros Hc Hs. unfold section_symbol_end. rewrite Hc. rewrite !fold_T_app, !top_opt_align.
+    set (d' := opt_aligned (lookup section (sections_end_alignment seg))
+                           (l_dot (set_dot (opt_aligned (section_end_align seg) (l_dot st)) st))).
+    rewrite (top_sym_end_size _ _ _ EDot _ s d');
+      [| apply eqb_dot_sec_end | apply eqb_dot_sec_size | reflexivity | exact Hs].
+    assert (Hse : String.eqb (segment_section_start sty (sg_name seg) section)
+                             (segment_section_end sty (sg_name seg) section) = false)
+      by (apply String.eqb_neq; apply sec_start_neq_end).
+    rewrite Hse. eexists. split; [reflexivity|]. split; [reflexivity|]. split; [|split].
+    - apply lookup_two_end. intro E. symmetry in E. revert E. apply sec_end_neq_size.
+    - apply lookup_two_same.
+    - simpl. auto.
+  Qed.
+
+  (* ---------- segment start: ROM and "." ---------- *)
+
+  Lemma top_segment_align_start sty name a st v :
+    sym_lookup "__romPos" st env ext = Some v ->
+    exists st',
+      fold_left T (segment_align_stmts (Some a) ++
+                   [linker_symbol (segment_rom_start sty name) (ESym "__romPos")]) st = st' /\
+      lookup (segment_rom_start sty name) (l_syms st') = Some (align_up v (Z.of_N a)) /\
+      lookup "__romPos" (l_syms st') = Some (align_up v (Z.of_N a)) /\
+      l_dot st' = align_up (l_dot st) (Z.of_N a).
+  Proof.
+    intro Hv. cbn [segment_align_stmts app fold_left].
+    assert (E1 : T st (SAlign "__romPos" a) = set_sym "__romPos" (align_up v (Z.of_N a)) false st).
+    { cbn [exec_top_stmt]. change (String.eqb "__romPos" ".") with false. cbv iota. rewrite Hv. reflexivity. }
+    rewrite E1.
+    assert (E2 : forall st0, T st0 (SAlign "." a) = set_dot (align_up (l_dot st0) (Z.of_N a)) st0) by reflexivity.
+    rewrite E2. rewrite top_linker_symbol by apply eqb_dot_rom_start.
+    cbn [eval_expr]. unfold sym_lookup at 1. cbn [l_syms set_dot set_sym lookup].
+    change (String.eqb "__romPos" "__romPos") with true. cbv iota. rewrite assign_ok.
+    eexists. split; [reflexivity|]. split; [apply lookup_set_sym_same|]. split; [|reflexivity].
+    rewrite lookup_set_sym_other by apply rom_start_neq_rompos. cbn [l_syms set_dot set_sym lookup].
+    reflexivity.
+  Qed.
+
+  (* ---------- segment end: VRAM_END, ROM_END ---------- *)
+
+  Lemma top_segment_align_end sty name (a : option N) st v sv sr :
+    sym_lookup "__romPos" st env ext = Some v ->
+    sym_lookup (segment_vram_start sty name) st env ext = Some sv ->
+    sym_lookup (segment_rom_start sty name) st env ext = Some sr ->
+    exists st',
+      fold_left T (segment_align_stmts a ++
+                   sym_end_size (segment_vram_start sty name) (segment_vram_end sty name)
+                                (segment_vram_size sty name) EDot ++
+                   sym_end_size (segment_rom_start sty name) (segment_rom_end sty name)
+                                (segment_rom_size sty name) (ESym "__romPos")) st = st' /\
+      l_dot st' = opt_aligned a (l_dot st) /\
+      lookup (segment_vram_end sty name) (l_syms st') = Some (opt_aligned a (l_dot st)) /\
+      lookup (segment_vram_size sty name) (l_syms st') = Some (opt_aligned a (l_dot st) - sv) /\
+      lookup (segment_rom_end sty name) (l_syms st') = Some (opt_aligned a v) /\
+      lookup (segment_rom_size sty name) (l_syms st') = Some (opt_aligned a v - sr).
+  Proof.
+    intros Hv Hsv Hsr. rewrite !fold_T_app.
+    assert (Hpre : exists st1, fold_left T (segment_align_stmts a) st = st1 /\
+                     l_dot st1 = opt_aligned a (l_dot st) /\
+                     sym_lookup "__romPos" st1 env ext = Some (opt_aligned a v) /\
+                     (forall x, x <> "__romPos" -> sym_lookup x st1 env ext = sym_lookup x st env ext)).
+    { destruct a as [n|]; cbn [segment_align_stmts fold_left opt_aligned].
+      - assert (E1 : T st (SAlign "__romPos" n) = set_sym "__romPos" (align_up v (Z.of_N n)) false st).
+        { cbn [exec_top_stmt]. change (String.eqb "__romPos" ".") with false. cbv iota. rewrite Hv. reflexivity. }
+        rewrite E1. eexists. split; [reflexivity|]. split; [reflexivity|]. split.
+        + reflexivity.
+        + intros x Hx. unfold sym_lookup. cbn [l_syms set_dot set_sym lookup exec_top_stmt].
+          change (String.eqb "." ".") with true. cbv iota. cbn [l_syms set_dot set_sym lookup].
+          destruct (String.eqb x "__romPos") eqn:E; [apply String.eqb_eq in E; contradiction | reflexivity].
+      - eexists. split; [reflexivity|]. auto. }
+    destruct Hpre as [st1 [E1 [Hd1 [Hr1 Ho1]]]]. rewrite E1.
+    assert (Hsv1 : sym_lookup (segment_vram_start sty name) st1 env ext = Some sv).
+    { rewrite Ho1 by apply vram_start_neq_rompos. exact Hsv. }
+    assert (Hsr1 : sym_lookup (segment_rom_start sty name) st1 env ext = Some sr).
+    { rewrite Ho1 by apply rom_start_neq_rompos. exact Hsr. }
+    rewrite (top_sym_end_size _ _ _ EDot st1 sv (l_dot st1));
+      [| apply eqb_dot_vram_end | apply eqb_dot_vram_size | reflexivity | exact Hsv1 ].
+    assert (Hse : String.eqb (segment_vram_start sty name) (segment_vram_end sty name) = false)
+      by (apply String.eqb_neq; apply vram_start_neq_end).
+    rewrite Hse.
+    set (st2 := set_sym (segment_vram_size sty name) (l_dot st1 - sv) false
+                        (set_sym (segment_vram_end sty name) (l_dot st1) false st1)).
+    assert (Hr2 : sym_lookup "__romPos" st2 env ext = Some (opt_aligned a v)).
+    { unfold st2. rewrite !sym_lookup_set_sym_other; [exact Hr1 | apply vram_end_neq_rompos | apply vram_size_neq_rompos]. }
+    assert (Hsr2 : sym_lookup (segment_rom_start sty name) st2 env ext = Some sr).
+    { unfold st2. rewrite !sym_lookup_set_sym_other; [exact Hsr1 | apply vram_end_neq_rom_start | apply vram_size_neq_rom_start]. }
+    rewrite (top_sym_end_size _ _ _ (ESym "__romPos") st2 sr (opt_aligned a v));
+      [| apply eqb_dot_rom_end | apply eqb_dot_rom_size | cbn [eval_expr]; rewrite Hr2; reflexivity | exact Hsr2 ].
+    assert (Hse2 : String.eqb (segment_rom_start sty name) (segment_rom_end sty name) = false)
+      by (apply String.eqb_neq; apply rom_start_neq_end).
+    rewrite Hse2. eexists. split; [reflexivity|]. rewrite <- Hd1.
+    split; [reflexivity|]. split; [|split; [|split]].
+    - rewrite lookup_two_other; [unfold st2; apply lookup_two_end | apply vram_end_neq_rom_end | apply vram_end_neq_rom_size].
+      intro E. symmetry in E. revert E. apply vram_end_neq_size.
+    - rewrite lookup_two_other; [unfold st2; apply lookup_two_same | apply vram_size_neq_rom_end | apply vram_size_neq_rom_size].
+    - apply lookup_two_end. intro E. symmetry in E. revert E. apply rom_end_neq_size.
+    - apply lookup_two_same.
+  Qed.
+End TopLevelExec.
+
+(* ====================================================================== *)
+(* output sections                                                         *)
+(* ====================================================================== *)
+
+Lemma fold_max_ge (sub : option Z) chosen : forall acc,
+  acc <= fold_left (fun m u => Z.max (Z.max m (u_align u)) (match sub with Some s => s | None => 1 end)) chosen acc.
+Proof.
+  induction chosen as [|u r IH]; intro acc; simpl; [lia|].
+  eapply Z.le_trans; [|apply IH]. lia.
+Qed.
+
+Lemma body_align_ge sub body : forall rem acc, acc <= body_align sub body rem acc.
+Proof.
+  induction body as [|s r IH]; intros rem acc; [simpl; lia|].
+  destruct s; try (simpl; apply IH).
+  simpl. eapply Z.le_trans; [|apply IH]. apply fold_max_ge.
+Qed.
+
+(* the start address ld gives to the output section *)
+Definition outsec_vma env senv ext (addr : option expr) (sub : option N) (body : list stmt) (st : lstate) : res Z :=
+  match addr with
+  | Some e => eval_expr env senv ext st (l_dot st) e
+  | None => Ok (align_up (l_dot st) (body_align (option_map Z.of_N sub) body (l_remaining st) 1))
+  end.
+
+Lemma exec_outsec_err env senv ext final name addr at_ noload sub body st e :
+  outsec_vma env senv ext addr sub body st = Err e ->
+  exec_outsec env senv ext final name addr at_ noload sub body st = add_err (LForwardRef name) st.
+Proof. unfold outsec_vma, exec_outsec. cbv zeta. intro H. rewrite H. reflexivity. Qed.
+
+Lemma exec_outsec_ok env senv ext final name addr at_ noload sub body st vma :
+  outsec_vma env senv ext addr sub body st = Ok vma ->
+  let ss := fold_left (exec_sec_stmt env senv ext final vma (option_map Z.of_N sub) name) body (SState 0 false st) in
+  let st' := exec_outsec env senv ext final name addr at_ noload sub body st in
+  l_dot st' = vma + s_off ss /\ l_placed st' = l_placed (s_st ss) /\ l_remaining st' = l_remaining (s_st ss) /\
+  l_syms st' = l_syms (s_st ss) /\ l_discarded st' = l_discarded st /\
+  exists lma, l_secs st' = l_secs st ++ [OSec name vma (s_off ss) lma noload (s_contents ss && negb noload)].
+Proof.
+  unfold outsec_vma, exec_outsec. cbv zeta. intro H. rewrite H.
+  set (ss := fold_left (exec_sec_stmt env senv ext final vma (option_map Z.of_N sub) name) body (SState 0 false st)).
+  destruct ((is_some addr && Nat.eqb (List.length (l_placed (s_st ss))) (List.length (l_placed st)) &&
+             negb (existsb (fun s => match s with SAssign _ _ _ _ _ => true | _ => false end) body)
+             || match addr with Some e => negb (addr_strict ext st e) | None => false end)%bool);
+    cbn [l_dot l_placed l_remaining l_syms l_discarded l_secs add_err];
+    (repeat split; try reflexivity;
+     [ unfold ss; rewrite fold_X_discarded; reflexivity
+     | eexists; unfold ss at 1; rewrite fold_X_secs; reflexivity ]).
+Qed.
+
+(* C09: an output section without address expression starts at the location counter aligned to the
+   strictest alignment among its input sections (and SUBALIGN) *)
+Lemma default_vram env senv ext final name at_ noload sub body st sa :
+  let A := body_align (option_map Z.of_N sub) body (l_remaining st) 1 in
+  let st' := exec_outsec env senv ext final name None at_ noload sub body st in
+  exists o, l_secs st' = l_secs st ++ [o] /\ os_name o = name /\ os_vma o = align_up (l_dot st) A /\
+            1 <= A /\ l_dot st <= os_vma o /\
+            (0 < sa -> (sa | l_dot st) -> compatible sa A -> (sa | os_vma o)).
+Proof.
+  intros A st'.
+  destruct (exec_outsec_ok env senv ext final name None at_ noload sub body st (align_up (l_dot st) A) eq_refl)
+    as [_ [_ [_ [_ [_ [lma E]]]]]].
+  eexists. split; [exact E|]. split; [reflexivity|]. split; [reflexivity|].
+  assert (HA : 1 <= A) by apply body_align_ge.
+  split; [exact HA|]. split; [apply align_up_le|]. cbn [os_vma].
+  intros Hsa Hd [Hc|Hc].
+  - eapply Z.divide_trans; [exact Hc|]. apply align_up_divide. lia.
+  - rewrite align_up_fix; [exact Hd | lia |]. eapply Z.divide_trans; [exact Hc | exact Hd].
+Qed.
+
+(* ---------- SUBALIGN ---------- *)
+
+Section SubAlign.
+  Variables env ext : list (string * Z).
+  Variable senv : list osec.
+  Variable final : bool.
+  Variable vma : Z.
+  Variable s : Z.
+  Variable outsec : string.
+  Hypothesis Hs : 0 < s.
+
+  Local Notation X := (exec_sec_stmt env senv ext final vma (Some s) outsec).
+
+  Lemma sub_step ss stm :
+    exists new, l_placed (s_st (X ss stm)) = l_placed (s_st ss) ++ new /\ Forall (fun p => (s | pl_addr p)) new.
+  Proof.
+    destruct stm as [t| |p h rc sym e|sym n|sym other|sec|n|n|kp path member sect wild|nm addr at_ nl sb body
+                     |sect|pats wild|body|e|e|c m];
+      try (exists []; rewrite app_nil_r; split; [reflexivity | constructor]).
+    - exists []. rewrite app_nil_r. split; [apply assign_placed | constructor].
+    - exists []. rewrite app_nil_r. split; [|constructor]. simpl. destruct (String.eqb sym "."); reflexivity.
+    - simpl.
+      destruct (place vma (Some s) outsec (filter (sel false path member sect wild) (l_remaining (s_st ss)))
+                      (s_off ss) [] (s_contents ss)) as [[off' pls] c] eqn:E.
+      apply place_subalign in E; [|exact Hs]. destruct E as [new [Hacc Hall]]. simpl in Hacc. subst pls.
+      exists new. split; [reflexivity | assumption].
+  Qed.
+
+  Lemma sub_fold body : forall ss,
+    exists new, l_placed (s_st (fold_left X body ss)) = l_placed (s_st ss) ++ new /\
+                Forall (fun p => (s | pl_addr p)) new.
+  Proof.
+    induction body as [|stm r IH]; intro ss; simpl.
+    - exists []. rewrite app_nil_r. split; [reflexivity | constructor].
+    - destruct (IH (X ss stm)) as [new2 [E2 H2]]. destruct (sub_step ss stm) as [new1 [E1 H1]].
+      exists (new1 ++ new2). rewrite E2, E1, app_assoc. split; [reflexivity|]. apply Forall_app; split; assumption.
+  Qed.
+End SubAlign.
+
+Lemma subalign_outsec env senv ext final name addr at_ noload s body st :
+  (0 < s)%N ->
+  exists new, l_placed (exec_outsec env senv ext final name addr at_ noload (Some s) body st) = l_placed st ++ new /\
+              Forall (fun p => (Z.of_N s | pl_addr p)) new.
+Proof.
+  intro Hs. destruct (outsec_vma env senv ext addr (Some s) body st) as [vma|e] eqn:E.
+  - destruct (exec_outsec_ok env senv ext final name addr at_ noload (Some s) body st vma E) as [_ [Hp _]].
+    rewrite Hp. cbn [option_map].
+    apply (sub_fold env ext senv final vma (Z.of_N s) name ltac:(lia) body (SState 0 false st)).
+  - rewrite (exec_outsec_err _ _ _ _ _ _ _ _ _ _ _ e E). exists []. rewrite app_nil_r.
+    split; [reflexivity | constructor].
+Qed.
+
+(* ====================================================================== *)
+(* no spurious alignment (script level)                                    *)
+(* ====================================================================== *)
+
+(* neither an ALIGN statement nor an output section *)
+Definition plain_top (s : stmt) : Prop :=
+  match s with SAlign _ _ | SOutSec _ _ _ _ _ _ => False | _ => True end.
+
+Lemma plain_top_none l : Forall plain_top l -> aligns_of l = [] /\ outsec_subaligns l = [].
+Proof.
+  induction 1 as [|x r Hx Hr [IH1 IH2]]; [split; reflexivity|].
+  unfold aligns_of, outsec_subaligns in *. simpl. rewrite IH1, IH2.
+  destruct x; simpl in *; try contradiction; split; reflexivity.
+Qed.
+
+Lemma aligns_app a b : aligns_of (a ++ b) = aligns_of a ++ aligns_of b.
+Proof. apply filter_app. Qed.
+
+Lemma subaligns_app a b : outsec_subaligns (a ++ b) = outsec_subaligns a ++ outsec_subaligns b.
+Proof. apply flat_map_app. Qed.
+
+Ltac pt_leaf :=
+  repeat match goal with
+         | |- Forall _ (_ ++ _) => apply Forall_app; split
+         | |- Forall _ (match ?x with _ => _ end) => destruct x
+         | |- Forall _ (if ?x then _ else _) => destruct x
+         | |- Forall _ (_ :: _) => constructor
+         | |- Forall _ [] => constructor
+         | |- plain_top _ => exact I
+         end.
+
+Lemma pt_gp rt seg section : Forall plain_top (gp_stmt rt seg section).
+Proof. unfold gp_stmt. pt_leaf. Qed.
+
+Lemma pt_kind_start sty cfg seg noload : Forall plain_top (sections_kind_start sty cfg seg noload).
+Proof. unfold sections_kind_start. pt_leaf. Qed.
+
+Lemma pt_kind_end sty cfg seg noload : Forall plain_top (sections_kind_end sty cfg seg noload).
+Proof. unfold sections_kind_end, sym_end_size. pt_leaf. Qed.
+
+Lemma pt_class_start st c cn : Forall plain_top (class_start_stmts st c cn).
+Proof.
+  unfold class_start_stmts. apply Forall_app; split; [|pt_leaf].
+  destruct (vc_fixed_vram c); [pt_leaf|]. destruct (vc_fixed_symbol c); [pt_leaf|].
+  constructor; [exact I|]. apply Forall_map_intro. intro x. exact I.
+Qed.
+
+Lemma aligns_opt_align a : aligns_of (opt_align a) = opt_align a.
+Proof. destruct a; reflexivity. Qed.
+
+Lemma aligns_section_start rt sty cfg seg section :
+  aligns_of (section_symbol_start rt sty cfg seg section) =
+  if section_syms cfg
+  then opt_align (section_start_align seg) ++ opt_align (lookup section (sections_start_alignment seg))
+  else [].
+Proof.
+  unfold section_symbol_start. destruct (section_syms cfg); [|reflexivity].
+  rewrite !aligns_app, !aligns_opt_align.
+  destruct (plain_top_none _ (pt_gp rt seg section)) as [E _]. rewrite E. simpl. rewrite app_nil_r. reflexivity.
+Qed.
+
+Lemma aligns_section_end sty cfg seg section :
+  aligns_of (section_symbol_end sty cfg seg section) =
+  if section_syms cfg
+  then opt_align (section_end_align seg) ++ opt_align (lookup section (sections_end_alignment seg))
+  else [].
+Proof.
+  unfold section_symbol_end. destruct (section_syms cfg); [|reflexivity].
+  rewrite !aligns_app, !aligns_opt_align. simpl. rewrite app_nil_r. reflexivity.
+Qed.
+
+Lemma pt_emitter sty wild offs g : emitter sty wild offs g ->
+  forall ws s ws', g ws = Ok (s, ws') -> Forall plain_top s.
+Proof.
+  apply (emitter_rel sty wild offs (fun _ s _ => Forall plain_top s)); intros; try (repeat constructor).
+  apply Forall_app; split; assumption.
+Qed.
+
+Lemma pt_emit_section rt sty cfg seg sections base section ws s ws' :
+  emit_section rt sty cfg seg sections base section ws = Ok (s, ws') -> Forall plain_top s.
+Proof. apply (pt_emitter sty (wildcard_sections seg) (offs_of_segment rt seg)). apply emit_section_emitter. Qed.
+
+Lemma write_segment_aligns rt st cfg seg sections noload ws s ws' :
+  write_segment rt st cfg seg sections noload ws = Ok (s, ws') ->
+  aligns_of s = [] /\ outsec_subaligns s = [subalign seg].
+Proof.
+  intro H. apply write_segment_inv in H. destruct H as [body [_ E]]. subst.
+  rewrite !aligns_app, !subaligns_app.
+  destruct (plain_top_none _ (pt_kind_start (linker_symbols_style st) cfg seg noload)) as [E1 E2].
+  destruct (plain_top_none _ (pt_kind_end (linker_symbols_style st) cfg seg noload)) as [E3 E4].
+  rewrite E1, E2, E3, E4. split; reflexivity.
+Qed.
+
+Lemma seg_head_aligns st seg :
+  aligns_of (seg_head st seg) = segment_align_stmts (segment_start_align seg) /\ outsec_subaligns (seg_head st seg) = [].
+Proof. unfold seg_head. destruct (segment_start_align seg); split; reflexivity. Qed.
+
+Lemma seg_foot_aligns st seg :
+  aligns_of (seg_foot st seg) = segment_align_stmts (segment_end_align seg) /\ outsec_subaligns (seg_foot st seg) = [].
+Proof.
+  unfold seg_foot. cbv zeta. destruct (segment_end_align seg); destruct (sg_vram_class seg); split; reflexivity.
+Qed.
+
+(* the ALIGN statements and SUBALIGN attributes of an emitted segment are exactly those requested *)
+Lemma add_segment_aligns rt st cfg classes seg ws s ws' :
+  add_segment rt st cfg classes seg ws = Ok (s, ws') ->
+  should_emit rt (sg_conds seg) = true ->
+  aligns_of s = segment_align_stmts (segment_start_align seg) ++ segment_align_stmts (segment_end_align seg) /\
+  outsec_subaligns s = [subalign seg; subalign seg].
+Proof.
+  intros H Hinc. apply add_segment_inv in H.
+  destruct H as [[Hex _] | [_ [cls [ws1 [s1 [ws2 [s2 [Ec [E1 [E2 E]]]]]]]]]]; [congruence|]. subst.
+  assert (Hcls : aligns_of cls = [] /\ outsec_subaligns cls = []).
+  { apply plain_top_none. apply class_part_inv in Ec.
+    destruct Ec as [[E _] | [cn [c [_ [_ [_ [E _]]]]]]]; subst; [constructor | apply pt_class_start]. }
+  destruct Hcls as [C1 C2].
+  apply write_segment_aligns in E1. destruct E1 as [A1 B1].
+  apply write_segment_aligns in E2. destruct E2 as [A2 B2].
+  destruct (seg_head_aligns st seg) as [H1 H2]. destruct (seg_foot_aligns st seg) as [F1 F2].
+  rewrite !aligns_app, !subaligns_app, C1, C2, A1, B1, A2, B2, H1, H2, F1, F2. split; reflexivity.
+Qed.
+
+Lemma opt_align_none : opt_align None = [].
+Proof. reflexivity. Qed.
+
+Lemma section_start_no_spurious rt sty cfg seg section :
+  section_start_align seg = None -> lookup section (sections_start_alignment seg) = None ->
+  aligns_of (section_symbol_start rt sty cfg seg section) = [].
+Proof. intros H1 H2. rewrite aligns_section_start, H1, H2. destruct (section_syms cfg); reflexivity. Qed.
+
+Lemma section_end_no_spurious sty cfg seg section :
+  section_end_align seg = None -> lookup section (sections_end_alignment seg) = None ->
+  aligns_of (section_symbol_end sty cfg seg section) = [].
+Proof. intros H1 H2. rewrite aligns_section_end, H1, H2. destruct (section_syms cfg); reflexivity. Qed.
+
+Lemma emit_section_no_align rt sty cfg seg sections base section ws s ws' :
+  emit_section rt sty cfg seg sections base section ws = Ok (s, ws') -> aligns_of s = [].
+Proof. intro H. apply pt_emit_section in H. apply plain_top_none in H. apply H. Qed.
+
+Lemma no_spurious_opt : opt_align None = [] /\ segment_align_stmts None = [].
+Proof. split; reflexivity. Qed.
+
+Lemma no_spurious_group rt sty cfg seg section :
+  aligns_of (section_symbol_start rt sty cfg seg section) =
+  (if section_syms cfg
+   then opt_align (section_start_align seg) ++ opt_align (lookup section (sections_start_alignment seg))
+   else []) /\
+  aligns_of (section_symbol_end sty cfg seg section) =
+  (if section_syms cfg
+   then opt_align (section_end_align seg) ++ opt_align (lookup section (sections_end_alignment seg))
+   else []).
+Proof. split; [apply aligns_section_start | apply aligns_section_end]. Qed.
+
+Lemma no_spurious_group_none rt sty cfg seg section :
+  (section_start_align seg = None -> lookup section (sections_start_alignment seg) = None ->
+   aligns_of (section_symbol_start rt sty cfg seg section) = []) /\
+  (section_end_align seg = None -> lookup section (sections_end_alignment seg) = None ->
+   aligns_of (section_symbol_end sty cfg seg section) = []).
+Proof. split; [apply section_start_no_spurious | apply section_end_no_spurious]. Qed.
+
+(* ====================================================================== *)
+(* the statements of Properties/C09.v                                      *)
+(* ====================================================================== *)
+
+Lemma top_group_start_aligned env senv ext final rt sty cfg seg section st :
+  section_syms cfg = true ->
+  let st' := fold_left (exec_top_stmt env senv ext final) (section_symbol_start rt sty cfg seg section) st in
+  lookup (segment_section_start sty (sg_name seg) section) (l_syms st') = Some (l_dot st') /\
+  l_dot st <= l_dot st' /\
+  (forall b, lookup section (sections_start_alignment seg) = Some b -> (0 < b)%N -> (Z.of_N b | l_dot st')) /\
+  (forall a, section_start_align seg = Some a -> (0 < a)%N ->
+             (forall b, lookup section (sections_start_alignment seg) = Some b ->
+                        compatible (Z.of_N a) (Z.of_N b)) ->
+             (Z.of_N a | l_dot st')).
+Proof.
+  intros Hc st'.
+  destruct (top_group_start env ext senv final rt sty cfg seg section st Hc) as [st1 [E [Hd [Hl _]]]].
+  subst st'. rewrite E. split; [exact Hl|]. rewrite Hd. apply opt_aligned_facts.
+Qed.
+
+Lemma top_group_end_aligned env senv ext final sty cfg seg section st s :
+  section_syms cfg = true ->
+  sym_lookup (segment_section_start sty (sg_name seg) section) st env ext = Some s ->
+  let st' := fold_left (exec_top_stmt env senv ext final) (section_symbol_end sty cfg seg section) st in
+  lookup (segment_section_end sty (sg_name seg) section) (l_syms st') = Some (l_dot st') /\
+  lookup (segment_section_size sty (sg_name seg) section) (l_syms st') = Some (l_dot st' - s) /\
+  l_dot st <= l_dot st' /\
+  (forall b, lookup section (sections_end_alignment seg) = Some b -> (0 < b)%N -> (Z.of_N b | l_dot st')) /\
+  (forall a, section_end_align seg = Some a -> (0 < a)%N ->
+             (forall b, lookup section (sections_end_alignment seg) = Some b ->
+                        compatible (Z.of_N a) (Z.of_N b)) ->
+             (Z.of_N a | l_dot st')).
+Proof.
+  intros Hc Hs st'.
+  destruct (top_group_end env ext senv final sty cfg seg section st s Hc Hs) as [st1 [E [Hd [Hl [Hz _]]]]].
+  subst st'. rewrite E. split; [exact Hl|]. split; [exact Hz|]. rewrite Hd. apply opt_aligned_facts.
+Qed.
+
+Lemma segment_start_aligned env senv ext final sty name a st v :
+  (0 < a)%N ->
+  sym_lookup "__romPos" st env ext = Some v ->
+  let st' := fold_left (exec_top_stmt env senv ext final)
+                       (segment_align_stmts (Some a) ++
+                        [linker_symbol (segment_rom_start sty name) (ESym "__romPos")]) st in
+  lookup (segment_rom_start sty name) (l_syms st') = Some (align_up v (Z.of_N a)) /\
+  lookup "__romPos" (l_syms st') = Some (align_up v (Z.of_N a)) /\
+  (Z.of_N a | align_up v (Z.of_N a)) /\
+  l_dot st' = align_up (l_dot st) (Z.of_N a) /\ (Z.of_N a | l_dot st').
+Proof.
+  intros Ha Hv st'.
+  destruct (top_segment_align_start env ext senv final sty name a st v Hv) as [st1 [E [H1 [H2 H3]]]].
+  subst st'. rewrite E. split; [exact H1|]. split; [exact H2|]. split; [apply align_up_divide; lia|].
+  split; [exact H3|]. rewrite H3. apply align_up_divide. lia.
+Qed.
+
+Lemma segment_end_aligned env senv ext final sty name a st v sv sr :
+  sym_lookup "__romPos" st env ext = Some v ->
+  sym_lookup (segment_vram_start sty name) st env ext = Some sv ->
+  sym_lookup (segment_rom_start sty name) st env ext = Some sr ->
+  let st' := fold_left (exec_top_stmt env senv ext final)
+                       (segment_align_stmts a ++
+                        sym_end_size (segment_vram_start sty name) (segment_vram_end sty name)
+                                     (segment_vram_size sty name) EDot ++
+                        sym_end_size (segment_rom_start sty name) (segment_rom_end sty name)
+                                     (segment_rom_size sty name) (ESym "__romPos")) st in
+  exists vend rend,
+    lookup (segment_vram_end sty name) (l_syms st') = Some vend /\
+    lookup (segment_rom_end sty name) (l_syms st') = Some rend /\
+    lookup (segment_vram_size sty name) (l_syms st') = Some (vend - sv) /\
+    lookup (segment_rom_size sty name) (l_syms st') = Some (rend - sr) /\
+    l_dot st <= vend /\ v <= rend /\ l_dot st' = vend /\
+    (forall n, a = Some n -> (0 < n)%N -> (Z.of_N n | vend) /\ (Z.of_N n | rend)) /\
+    (a = None -> vend = l_dot st /\ rend = v).
+Proof.
+  intros Hv Hsv Hsr st'.
+  destruct (top_segment_align_end env ext senv final sty name a st v sv sr Hv Hsv Hsr)
+    as [st1 [E [Hd [H1 [H2 [H3 H4]]]]]].
+  subst st'. rewrite E. exists (opt_aligned a (l_dot st)), (opt_aligned a v).
+  repeat (split; [assumption|]). split; [apply opt_aligned_le|]. split; [apply opt_aligned_le|].
+  split; [exact Hd|]. split.
+  - intros n En Hn. subst a. cbn [opt_aligned]. split; apply align_up_divide; lia.
+  - intro En. subst a. split; reflexivity.
+Qed.
